@@ -112,6 +112,20 @@ Record entry := mkEntry { e_cond : cond; e_or : bool; e_latch : latch }.
 Definition add_condition (es : list entry) (c : cond) (l : latch) (mode_is_or : bool) : list entry :=
   es ++ [mkEntry c mode_is_or l].
 
+(* addStoppingCondition(condition, mode = 'or'): the mode ARGUMENT as the caller writes it - None = the
+   argument is omitted (the default applies), Some s = the string passed.  `if mode == 'or'` appends
+   True, everything else appends False ('and'). *)
+Definition default_mode : string := "or"%string.
+Definition mode_is_or (m : option string) : bool :=
+  String.eqb (match m with None => default_mode | Some s => s end) "or"%string.
+Definition add_stopping_condition (es : list entry) (c : cond) (l : latch) (m : option string) : list entry :=
+  add_condition es c l (mode_is_or m).
+(* a sequence of registrations on a model whose list is es0 *)
+Definition register (es0 : list entry) (regs : list (cond * latch * option string)) : list entry :=
+  fold_left (fun es r => add_stopping_condition es (fst (fst r)) (snd (fst r)) (snd r)) regs es0.
+(* clearStoppingConditions() *)
+Definition clear_conditions (es : list entry) : list entry := [].
+
 (* the loop of postProcess: every condition is tested, in order *)
 Fixpoint test_all (nm : names) (h : list row) (es : list entry) : option (list entry) :=
   match es with
@@ -171,8 +185,9 @@ Definition solve (nm : names) (next : list row -> row) (fuel : nat) (simTime : t
 
 (* ---- TTPCalculator ------------------------------------------------------------------------ *)
 (* __init__: clearStoppingConditions(); every condition is registered with mode 'and' *)
-Definition ttp_init (cs : list (cond * latch)) : list entry :=
-  fold_left (fun es cl => add_condition es (fst cl) (snd cl) false) cs [].
+Definition ttp_init_on (es0 : list entry) (cs : list (cond * latch)) : list entry :=
+  register (clear_conditions es0) (map (fun cl => (fst cl, snd cl, Some "and"%string)) cs).
+Definition ttp_init (cs : list (cond * latch)) : list entry := ttp_init_on [] cs.
 
 (* pData after reset() + setup(): one row at time 0 whose values depend on the temperature *)
 Definition first_row (init : t -> row) (Temp : t) : row :=
